@@ -10,11 +10,6 @@ open Placement Placement.Gens Placement.Hier
 variable {R : Type}
 set_option linter.unusedSectionVars false
 
-/-- a 2xx answer -/
-def okR (r : Resp) : Prop := r.ok = true
-
-instance (r : Resp) : Decidable (okR r) := by unfold okR; exact inferInstance
-
 /-- internal id of the provider with uuid `u` -/
 def rpIdOf (s : DB R) (u : Nat) : Option Nat := (s.rpByUuid u).map (·.id)
 
